@@ -120,8 +120,10 @@ def _gen(rng, tier):
         rng.shuffle(perms)
         for order in perms[: (40 if thorough else 4)]:
             for workers in ((1, 2, 3, 8) if thorough else (1, 2, 8)):
-                for failing, ignore in (((), False), ((ids[1],), True), ((ids[1],), False), ((ids[0], ids[-1]), True)):
-                    for throw in ((False, True) if (thorough and not failing) else (False,)):
+                srt = sorted(ids)
+                for failing, ignore in (((), False), ((ids[1],), True), ((ids[1],), False), ((ids[0], ids[-1]), True),
+                                        (tuple(srt[:2]), True), (tuple(srt[:3]), True)):
+                    for throw in ((False, True) if (thorough or failing == (ids[1],)) else (False,)):
                         yield dict(run_ids=ids, completion_order=list(order), workers=workers, failing=list(failing),
                                    ignore_errors=ignore, throw_away=throw)
 
@@ -131,8 +133,8 @@ multi_run = Contract(
     ensures=_ens, raises={},
     harness=Harness(native=_native, gen=_gen,
                     scope="3..6 runs given in unsorted order, completion orders enforced by releasing the worker calls one at a time "
-                          "(quick: 4, thorough: 40 permutations per id set), 1/2/3/8 workers, no / one / two failing runs with and "
-                          "without ignore_errors, throw_away_result; the real strax.multi_run with real threads",
+                          "(quick: 4, thorough: 40 permutations per id set), 1/2/3/8 workers, no / one / two / three failing runs (also the first ones scheduled, so that a whole "
+                          "scheduling window fails) with and without ignore_errors, throw_away_result with and without failures; the real strax.multi_run with real threads",
                     nontrivial=lambda i: i["completion_order"] != sorted(i["completion_order"])))
 
 
